@@ -46,6 +46,9 @@ type ClientHSCase struct {
 	Host     string              `json:"host"`
 	Path     string              `json:"path"`
 	Query    string              `json:"query"`
+	// Frag: the URL carries a #fragment, which is the client's own business
+	// and never part of the request-target.
+	Frag string `json:"frag,omitempty"`
 	Subs     []string            `json:"subs,omitempty"`
 	Compress bool                `json:"compress"`
 	Header   map[string][]string `json:"header,omitempty"`
@@ -77,6 +80,9 @@ func genClientHSCase(t *rapid.T) ClientHSCase {
 		if len(segs) > 0 && rapid.IntRange(0, 4).Draw(t, "trailslash") == 0 {
 			c.Path += "/"
 		}
+	}
+	if rapid.IntRange(0, 4).Draw(t, "has_frag") == 0 {
+		c.Frag = rapid.SampledFrom([]string{"f", "section-2", "a/b?c=d", "%23x", "!"}).Draw(t, "frag")
 	}
 	c.Query = rapid.SampledFrom([]string{"", "", "x=1", "a=b&c=d", "q=%20%26", "redirect=http://e.com/?x=y", "k", "a=b=c&&", "utf=%E2%9C%93", "plus=a+b"}).Draw(t, "query")
 	c.Subs = rapid.SampledFrom([][]string{nil, nil, {"chat"}, {"chat", "superchat"}, {"v1.x"}}).Draw(t, "subs")
@@ -167,6 +173,9 @@ func (c ClientHSCase) url() string {
 	u += c.Host + c.Path
 	if c.Query != "" {
 		u += "?" + c.Query
+	}
+	if c.Frag != "" {
+		u += "#" + c.Frag
 	}
 	return u
 }
